@@ -107,6 +107,10 @@ class ConeCtx(P.DecisionCtx):
             return Poly.const(snap(fr, t.w))
         if op == 'select':
             return self.fpoly(t.args[1] if self.decide(t.args[0]) else t.args[2])
+        if op == 'concat' and len(t.args) == 2 and t.args[0].op == 'const' and t.args[1].w == 1 and t.args[1].op != 'const' and t.w in (32, 64):
+            # a float constant whose sign bit is a condition (how `c ? -k : k` compiles): the bit is decided like any comparison
+            neg = self.decide(t.args[1])
+            return self.fpoly(tm.const(t.w, t.args[0].args[0] | ((1 << (t.w - 1)) if neg else 0)))
         if op == 'fabs':
             p = self.fpoly(t.args[0])
             return p if self.sgn(p) >= 0 else -p
